@@ -201,7 +201,8 @@ class CountingBloomFilter(BloomFilter):
         to_remove = num_els if min_val > num_els else min_val
         for k in indices:
             if self._bloom[k] < UINT32_T_MAX:  # only remove if less than UINT32_T_MAX
-                self._bloom[k] -= to_remove
+                # (a cell selected by two of the hashes is lowered twice: never below 0)
+                self._bloom[k] -= min(to_remove, self._bloom[k])
         self.elements_added -= to_remove
         return min_val - to_remove
 
